@@ -8,6 +8,7 @@
 From Coq Require Import List ZArith Bool String.
 From NT Require Import Sx Rose Serialize SerializeSpec SerCompressProofs SerWriterProofs SerReaderProofs SerIsoProofs SerializeProofs
      SerTheorems SerWitness SerIsoRenamed SerWitness2.
+From NT Require MiscZipIO MiscZipIOProofs.   (* part ZIPIO, imported at the end of this file *)
 From NTGen Require Import Generated.
 Import ListNotations.
 Open Scope list_scope.
@@ -173,3 +174,153 @@ Qed.
 Theorem C05_generated_facts_present : GEN_CONST_OK = true /\ GEN_DOCS_OK = true.
 Proof. split; reflexivity. Qed.
 Print Assumptions C05_generated_facts_present.
+
+(* ==== PART ZIPIO: the byte transport of save()/load(): common.open_as_compressed_output_stream and
+   open_as_uncompressed_input_stream (model theories/Forest/MiscZipIO.v, correspondence Cases/CaseMiscZipIO.v on real files,
+   harness parts_misc.ZIPIO).  A file is [FPlain t] or a ZIP container [FZip members]; zipfile / bz2 / zlib / lzma / utf-8
+   are the identity on the text (modelled, not verified). ==== *)
+Import MiscZipIO MiscZipIOProofs.
+
+(* whatever was written comes back, for every accepted compression setting (with auto_uncompress on, the default) *)
+Theorem C05_transport_roundtrip : forall name c t f, write_file name c t = inr f -> read_file f true = RText t.
+Proof. exact transport_roundtrip. Qed.
+Print Assumptions C05_transport_roundtrip.
+
+(* the writer refuses exactly the ints that are not a ZIP method *)
+Theorem C05_transport_refused_iff : forall name c t,
+  (exists e, write_file name c t = inl e) <-> exists z, c = CInt z /\ known_method z = false.
+Proof. exact write_refused_iff. Qed.
+Print Assumptions C05_transport_refused_iff.
+
+(* only `False` writes a plain file: 0 (ZIP_STORED) is a container, True means BZIP2; one member named "<file name>.json" *)
+Theorem C05_transport_shapes : forall name t,
+  write_file name CFalse t = inr (FPlain t) /\
+  write_file name CTrue t = inr (FZip [(name ++ t_json, ZIP_BZIP2, t)]) /\
+  write_file name (CInt 0) t = inr (FZip [(name ++ t_json, ZIP_STORED, t)]) /\
+  (forall z, known_method z = true -> write_file name (CInt z) t = inr (FZip [(name ++ t_json, z, t)])).
+Proof. exact write_shapes. Qed.
+Print Assumptions C05_transport_shapes.
+
+(* the reader: a container is accepted iff it has exactly one member (any name, any method); without auto_uncompress a
+   plain file still reads and a container is not interpreted *)
+Theorem C05_transport_single_member : forall ms, (exists t, read_file (FZip ms) true = RText t) <-> List.length ms = 1%nat.
+Proof. exact read_single_member_iff. Qed.
+Print Assumptions C05_transport_single_member.
+
+Theorem C05_transport_no_uncompress : forall f, read_file f false = match f with FPlain t => RText t | FZip _ => RRaw end.
+Proof. exact read_without_uncompress. Qed.
+Print Assumptions C05_transport_no_uncompress.
+
+Example C05_transport_ex :
+  write_file [102]%Z (CInt 1) [120]%Z = inl MiscZipIO.E_NOTIMPL /\
+  read_file (FZip [([97]%Z, 0%Z, [49]%Z); ([98]%Z, 12%Z, [50]%Z)]) true = RErr MiscZipIO.E_VALUE /\
+  read_file (FZip [([97]%Z, 8%Z, [49]%Z)]) true = RText [49]%Z.
+Proof. repeat split. Qed.
+
+(* ====================================================================== audit follow-up *)
+From NT Require Import SerAuditC05.
+From NT Require Machine WF.
+
+(* A1. Option independence and the file-meta clause ALSO for data whose ids do not survive a rebuild
+       (identity-hashed: plain objects, DictWrapper, FileSystemEntry -- every FileSystemTree): the loaded tree
+       is the same for all admissible (key_map, value_map, meta); it is iso to the source up to the renaming. *)
+Theorem C05_option_independent_any_data : forall c ser deser shash f rho ko1 vo1 ko2 vo2 meta1 meta2,
+  tree_ok c f -> opts_ok c ser ko1 vo1 meta1 f -> opts_ok c ser ko2 vo2 meta2 f -> mapper_ok c ser deser f ->
+  ids_renamed c ser deser shash f rho -> rho_inj f rho ->
+  exists j1 j2 md1 md2 f', save_doc c ser ko1 vo1 meta1 f = Ok j1 /\ save_doc c ser ko2 vo2 meta2 f = Ok j2 /\
+                           load_doc c deser shash j1 = Ok (md1, f') /\ load_doc c deser shash j2 = Ok (md2, f') /\
+                           iso_upto rho f f'.
+Proof. exact option_independent_renamed. Qed.
+Print Assumptions C05_option_independent_any_data.
+
+Theorem C05_meta_any_data : forall c ser deser shash f rho ko vo meta,
+  tree_ok c f -> opts_ok c ser ko vo meta f -> mapper_ok c ser deser f ->
+  ids_renamed c ser deser shash f rho -> rho_inj f rho ->
+  exists j md f', save_doc c ser ko vo meta f = Ok j /\ load_doc c deser shash j = Ok (md, f') /\
+    (forall k v, In (k, v) meta -> dget k md = Some v) /\
+    dget k_generator md = Some (JStr (s_nutree_slash ++ NUTREE_VERSION)) /\
+    dget k_format_version md = Some (JStr FILE_FORMAT_VERSION) /\
+    dget k_key_map md = (if is_nil (resolve_km c ko) then None else Some (jv_key_map (resolve_km c ko))) /\
+    dget k_value_map md = (if is_nil (resolve_vm c vo f) then None else Some (jv_value_map (resolve_vm c vo f))).
+Proof. exact file_meta_back_renamed. Qed.
+Print Assumptions C05_meta_any_data.
+
+(* A2. A primitive condition between [id_stable] and [clones_same_kind]: only the data_ids that have a later
+       occurrence of ANOTHER kind (written in full twice) need stable ids; everything else may be identity-hashed. *)
+Theorem C05_roundtrip_mixed : forall c ser deser shash f ko vo meta,
+  tree_ok c f -> opts_ok c ser ko vo meta f -> mapper_ok c ser deser f ->
+  kind_differing_stable c ser deser shash f -> rho_inj f (rho_of c ser deser shash f) ->
+  exists j f', save_doc c ser ko vo meta f = Ok j /\
+               load_doc c deser shash j = Ok (header_spec (resolve_km c ko) (resolve_vm c vo f) meta, f') /\
+               iso_upto (rho_of c ser deser shash f) f f' /\
+               map rdid (pre_f f') = map (rho_of c ser deser shash f) (map rdid (pre_f f)) /\ ids f' = seq 1 (size_f f).
+Proof. exact roundtrip_mixed. Qed.
+Print Assumptions C05_roundtrip_mixed.
+
+(* A3. The library's OWN default mappers (no mapper argument): a TypedTree and a plain Tree of str data (explicit
+       ids included: D50 and D92 repaired) round-trip under default options / maps off. *)
+Theorem C05_roundtrip_default_mappers : forall c shash ko vo meta f,
+  (c = CTyped \/ c = CPlain) -> all_str f ->
+  (ko = KTrue \/ ko = KFalse) -> (vo = VTrue \/ vo = VFalse) -> meta_ok meta ->
+  tree_ok c f -> str_hash_fn shash f ->
+  exists j f', save_doc c default_ser ko vo meta f = Ok j /\
+               load_doc c (default_deser c shash) shash j = Ok (header_spec (resolve_km c ko) (resolve_vm c vo f) meta, f') /\
+               iso f f' /\ map rdid (pre_f f') = map rdid (pre_f f) /\ ids f' = seq 1 (size_f f).
+Proof. exact roundtrip_default_mappers. Qed.
+Print Assumptions C05_roundtrip_default_mappers.
+
+(* D92 (FIXED, fixes/D92.diff): a plain Tree with a str node that has an explicit data_id is saved without a mapper
+   (entry {"str", "data_id"}) and -- since the repair -- loaded without one, like a TypedTree; with the pre-repair
+   default mapper (always NotImplementedError) the same document was refused.  Regression example. *)
+Theorem C05_D92_witness :
+  exists j, save_doc CPlain default_ser KTrue VTrue [] f_d92 = Ok j /\
+            (exists md f', load_doc CPlain (default_deser CPlain whash) whash j = Ok (md, f') /\ iso f_d92 f') /\
+            (exists md f', load_doc CTyped (default_deser CTyped whash) whash j = Ok (md, f')) /\
+            load_doc CPlain default_deser_plain_prerepair whash j = Err ENotImpl.
+Proof. exact d92_witness. Qed.
+Print Assumptions C05_D92_witness.
+
+(* A4. OUTSIDE THE DOMAIN of C05: [clones_consistent].  One data_id stands for one data object (that is what a
+       clone is); an explicit data_id is the caller's statement that two nodes carry the same data.  The library
+       accepts two nodes with one explicit data_id and different data; the second is written as a reference and
+       comes back with the first one's data ("b" loads as "a").  The statement without the hypothesis is false. *)
+Definition C05_roundtrip_without_clones_consistent : Prop := roundtrip_without_clones_consistent.
+Theorem C05_roundtrip_without_clones_consistent_refuted : ~ C05_roundtrip_without_clones_consistent.
+Proof. exact roundtrip_without_clones_consistent_refuted. Qed.
+Print Assumptions C05_roundtrip_without_clones_consistent_refuted.
+
+Example C05_outside_domain_same_id_different_data :
+  ~ clones_consistent f_cc /\
+  match save_doc CPlain wser KTrue VTrue [] f_cc with
+  | Ok j => match load_doc CPlain (wdeser true) whash j with
+            | Ok (_, f') => map (fun t => i_name (rinfo t)) (pre_f f') = [t_ "a"; t_ "x"; t_ "a"] /\
+                            map rdid (pre_f f') = map rdid (pre_f f_cc)
+            | Err _ => False
+            end
+  | Err _ => False
+  end.
+Proof. exact f_cc_outside. Qed.
+
+(* Remaining exclusions of [opts_ok] besides D51, both user errors that the library does not validate: a custom key_map
+   that maps two keys to one short name (the second overwrites the first member silently), and user meta that uses a
+   reserved header key ($generator, $format_version, $key_map, $value_map: header.update(meta) overwrites it). *)
+
+(* A5. Bridge to reachable states: every well-formed state of the mutation machine (Mut/WF.v, preserved by every
+       operation: C01) has unique node ids different from the root's and unique sibling data_ids; the two remaining
+       conditions of [tree_ok] are about the data ([kinds_ok]: the tree class; [clones_consistent]: A4). *)
+Theorem C05_WF_gives_tree_side_conditions : forall t,
+  WF.WF t -> ids_ok (Machine.forest_of t) /\ SerIsoProofs.sib_unique (Machine.forest_of t).
+Proof. exact WF_tree_side_conditions. Qed.
+Print Assumptions C05_WF_gives_tree_side_conditions.
+
+Theorem C05_roundtrip_of_WF : forall c ser deser shash ko vo meta t,
+  WF.WF t -> kinds_ok c (Machine.forest_of t) -> clones_consistent (Machine.forest_of t) ->
+  opts_ok c ser ko vo meta (Machine.forest_of t) -> mapper_ok c ser deser (Machine.forest_of t) ->
+  id_stable c ser deser shash (Machine.forest_of t) ->
+  exists j f', save_doc c ser ko vo meta (Machine.forest_of t) = Ok j /\
+               load_doc c deser shash j
+               = Ok (header_spec (resolve_km c ko) (resolve_vm c vo (Machine.forest_of t)) meta, f') /\
+               iso (Machine.forest_of t) f' /\ map rdid (pre_f f') = map rdid (pre_f (Machine.forest_of t)) /\
+               ids f' = seq 1 (size_f (Machine.forest_of t)).
+Proof. exact roundtrip_of_WF. Qed.
+Print Assumptions C05_roundtrip_of_WF.
